@@ -1475,6 +1475,25 @@ func genXhub(rng *rand.Rand, name string) *Plan {
 					reqs = append(reqs, sent{s, d, idx, t.T})
 					sentX = append(sentX, t)
 					txs = append(txs, t)
+				case k < 5 && rng.Intn(6) == 0: // a one-to-many transaction with one child here and one on the other hub
+					s := local[rng.Intn(2)]
+					d1, d2 := local[0], remote[rng.Intn(2)]
+					if d1 == s {
+						d1 = local[1]
+					}
+					p1, p2 := s+">"+d1, s+">"+d2
+					for _, pr := range []string{p1, p2} {
+						if next[pr] == 0 {
+							next[pr], nextR[pr] = 1, 1
+						}
+					}
+					g, gi := []string{d1, d2}, []uint64{next[p1], next[p2]}
+					next[p1]++
+					next[p2]++
+					T := timeouts[rng.Intn(len(timeouts))]
+					txs = append(txs, Tx{K: "ibtp", Src: s, Dst: d1, Idx: gi[0], Typ: "REQ", T: T, Proof: "ok", From: from, GDst: g, GIdx: gi},
+						Tx{K: "ibtp", Src: s, Dst: d2, Idx: gi[1], Typ: "REQ", T: T, Proof: "ok", From: from, GDst: g, GIdx: gi})
+					reqs = append(reqs, sent{s, d1, gi[0], T}, sent{s, d2, gi[1], T})
 				case k < 5: // request from a local service to the other hub
 					s, d := local[rng.Intn(2)], remote[rng.Intn(2)]
 					if rng.Intn(14) == 0 {
